@@ -45,7 +45,7 @@ type JIn struct {
 func init() {
 	register(&Driver{
 		Name:     "json",
-		Header:   "From ZenoV Require Import Lib.Harness Ext.FileExt Ext.Json Ext.ExtHarness.\n",
+		Header:   "From Coq Require Import Uint63.\nFrom ZenoV Require Import Lib.Harness Ext.Pack Ext.FileExt Ext.Json Ext.ExtHarness.\n",
 		CaseType: "jcase",
 		Footer:   "\nDefinition DIFF := Eval vm_compute in jdiffs cases.\nPrint DIFF.\nDefinition MON := Eval vm_compute in jmons cases.\nPrint MON.\n",
 		Rule:     "one case = one JSON document rendered from a generated value tree (depth <= 5; objects, arrays, scalars, strings; JSON embedded in strings, compact or spaced, well-formed, malformed or padded with white space; four escaping styles; compact/indented/ragged layout; optional trailing data; a separate stream of damaged renderings) with absolute http(s) URLs planted as string values, decoys as values and URLs as member names; distinct by input text; non-trivial when a planted URL sits at nesting depth >= 2 or inside embedded JSON",
